@@ -30,6 +30,7 @@ type recFs struct {
 	// fault injection: operation index -> kind ("err", "short", "nerr")
 	faults map[int]string
 	hit    []string
+	hitIdx []int // operation index of each hit
 }
 
 var errInjected = errors.New("injected fault")
@@ -56,6 +57,7 @@ func (r *recFs) op(kind, path string) string {
 	}
 	if f, ok := r.faults[idx]; ok {
 		r.hit = append(r.hit, kind)
+		r.hitIdx = append(r.hitIdx, idx)
 		return f
 	}
 	return ""
